@@ -128,6 +128,9 @@ fn body() {
         (j.w.clone(), Arc::clone(&j.data), j.mode)
     });
     let mut src = SimSource::with_data(&w, (*data).clone());
+    if w.pre_reads > 0 {
+        src.pre_read(w.pre_reads, w.block);
+    }
     let mut mode = mode;
     if let (Mode::Par, Some(pre)) = (mode, w.pre.as_deref()) {
         // (C10, multi-thread slice) an earlier call on the same simulated main thread; its result is discarded
